@@ -128,3 +128,70 @@ Example C19_exclude_nonvacuous :
   = EOk [mkSchema [115]%N [mkTable [116]%N false false [] None
            [mkIndex [105]%N false [mkPart 0 false (Some [99]%N) None] None None None] [] []]].
 Proof. vm_compute. reflexivity. Qed.
+
+(** ** C19_match_spec.  Full statement (DESIGN 4, C19): for every pattern p and name s,
+    [Match p s = Ok b] with [b = true <-> Glob p s] when p is well formed (GlobSpec.v: the
+    grammar and the declarative relation), and [Match p s = Bad] exactly when p is malformed.
+
+    Proved here (PARTIAL):
+    - chunk level, every chunk and every name (any bytes): on a chunk the grammar derives
+      without '*', [matchChunk] (classes, ranges, negation, escapes, '?', literals, the
+      [failed] flag, utf8 decoding) returns exactly the deterministic prefix matcher [PM],
+      and [PM] decides the declarative relation [Matches];
+    - whole patterns without a '*' byte: for every well-formed such pattern and EVERY name
+      [Match] answers [Ok b] with [b = true <-> Matches ts s], in particular never Bad, Fuel
+      or Panic.
+    - the ErrBadPattern half of the full statement is refuted as stated: a malformed pattern
+      whose bad chunk is not reached answers (false, nil) (C19_match_bad_exact_refuted).
+    Missing: the same equivalence through scanChunk and the greedy star loop of [Match]
+    (needs: scan's [inrange] flag coincides with the class structure of well-formed patterns,
+    rune-decoding is prefix-stable, leftmost-match suffices on plain names), and "Match = Ok
+    true only for well-formed patterns".  For names that are not plain (multi-byte runes,
+    '/') the equivalence is FALSE of Go's Match (Examples below, reproduced on the real code,
+    known findings C19-stdlib-...).  The star part is covered by the exhaustive tie only: all
+    patterns of <= 4 (thorough 5) symbols over {a,b,*,?,[,],-,\,^} x all names <= 3, model =
+    Go byte for byte, and Go compared with an independent reference matcher in the oracle. *)
+From Atlas Require Import Excl.GlobSpec Excl.GlobProofs.
+
+Theorem C19_match_spec_partial :
+  (forall chunk items s, Parses chunk items -> no_star items ->
+     matchChunk chunk s = Ok (PM items s) /\ (PM items s = Some [] <-> Matches items s))
+  /\ (forall p ts s, Parses p ts -> starless p ->
+        exists b, Match p s = Ok b /\ (b = true <-> Matches ts s)).
+Proof.
+  split.
+  - intros chunk items s HP Hn. split; [exact (matchChunk_parses chunk items s HP Hn)|exact (PM_Matches items Hn s)].
+  - intros p ts s HP Hs. exact (Match_starless p ts s HP Hs).
+Qed.
+Print Assumptions C19_match_spec_partial.
+
+Theorem C19_match_bad_exact_refuted :
+  exists p s, ~ WellFormed p /\ Match p s = Ok false.
+Proof.
+  exists [97;42;91]%N, [98]%N. split; [|vm_compute; reflexivity].
+  intros [ts H].
+  inversion H as [| | | |c p ts0 Hm H1|]; subst.
+  inversion H1 as [|p ts1 H2| | |c p ts1 Hm2 H2|]; subst; [|vm_compute in Hm2; discriminate].
+  inversion H2 as [| | | |c p ts2 Hm3 H3|q neg q0 lo hi q1 rs q' ts2 Hs HR HT HP]; subst; [vm_compute in Hm3; discriminate|].
+  vm_compute in Hs. inversion Hs; subst. inversion HR; subst;
+    match goal with Hc : rchar [] = Some _ |- _ => vm_compute in Hc; discriminate end.
+Qed.
+Print Assumptions C19_match_bad_exact_refuted.
+
+(** the model reproduces the two behaviours of Go's Match outside plain names *)
+Example C19_match_multibyte_quirk :   (* Match("*??x", "€x") = true: 2 characters match 3 terms *)
+  Match [42;63;63;120]%N [226;130;172;120]%N = Ok true.
+Proof. vm_compute. reflexivity. Qed.
+Example C19_match_separator_quirk :   (* Match("*[^x]*c", "a/c") = false although * = a, [^x] = /, * = "" *)
+  Match [42;91;94;120;93;42;99]%N [97;47;99]%N = Ok false.
+Proof. vm_compute. reflexivity. Qed.
+Example C19_match_nonvacuous :        (* "[a-c]?\\*" matches "bz*" *)
+  Match [91;97;45;99;93;63;92;42]%N [98;122;42]%N = Ok true
+  /\ Parses [91;97;45;99;93;63;92;42]%N [TClass false [(97,99)%N]; TAny; TLit 42%N].
+Proof.
+  split; [vm_compute; reflexivity|].
+  eapply P_class; [reflexivity| | |].
+  - eapply Range_two; vm_compute; reflexivity.
+  - apply RT_close.
+  - apply P_any. apply P_esc. apply P_nil.
+Qed.
